@@ -28,19 +28,36 @@ static void cu_begin_script(long sid) {
     if (cu_enc_arg >= 0) cu_enc = cu_enc_arg;
     else cu_enc = cu_family_for(sid, cu_N <= 253 ? 3 : 2);
 }
-static spif_obj_t cu_mk(long v) {
-    char t[40];
+static void cu_text(long v, char *t, size_t n) {
     if (cu_enc == 1) {
         long f = (v > cu_N + 1) ? 255 : 1 + (v * 254) / (cu_N + 1);
-        snprintf(t, sizeof(t), "%c%05ld", (int) (unsigned char) f, v);
+        snprintf(t, n, "%c%05ld", (int) (unsigned char) f, v);
     } else if (cu_enc == 2) {
-        if (v > cu_N + 1) snprintf(t, sizeof(t), "K\377%05ld", v);
-        else snprintf(t, sizeof(t), "K%c", (int) (unsigned char) (v + 1));
+        if (v > cu_N + 1) snprintf(t, n, "K\377%05ld", v);
+        else snprintf(t, n, "K%c", (int) (unsigned char) (v + 1));
     } else {
-        snprintf(t, sizeof(t), "%05ld", v);
+        snprintf(t, n, "%05ld", v);
     }
+}
+/* Object classes (round 4: mixed-class elements): cls 1 = spif_str, cls 2 = spif_url with the very same text.  A url IS
+ * a str and compares by its text, so the two are interchangeable in every comparison a container makes. */
+static spif_obj_t cu_mkc(long v, long cls) {
+    char t[40];
+    cu_text(v, t, sizeof(t));
+    if (cls == 2) return SPIF_OBJ(spif_url_new_from_ptr((spif_charptr_t) t));
     return SPIF_OBJ(spif_str_new_from_ptr((spif_charptr_t) t));
 }
+static spif_obj_t cu_mk(long v) { return cu_mkc(v, 1); }
+/* url objects whose text starts "word:" make libast look the word up with getprotobyname()/getservbyname(); the C library
+ * allocates its lookup state once per process on first use.  Do that before any heap-balance window opens. */
+#include <netdb.h>
+static void cu_warm_libc(void) {
+    (void) getprotobyname("tcp"); (void) getprotobyname("nosuchproto"); (void) getprotobyname("");
+    (void) getservbyname("http", "tcp"); (void) getservbyname("nosuchserv", "udp"); (void) getservbyname("", "tcp");
+}
+/* optional class argument of a script step (absent = str) */
+static long cu_clsarg(const vh_step_t *st, int i) { return (i < st->nargs) ? vh_int(st->args[i]) : 1; }
+static long cu_mixcls(long mix, long k) { return mix == 3 ? 1 + (k % 2) : (mix == 2 ? 2 : 1); }
 static long cu_val(spif_obj_t o) {
     const unsigned char *s;
     if (SPIF_OBJ_ISNULL(o)) return 0;
